@@ -834,6 +834,18 @@ func genFRMut(w *bufio.Writer, thorough bool, r *Rng) {
 		n, per = 400, 80
 	}
 	frames := someFrames(r, n, thorough)
+	// a skippable frame in front whose length has its top bit set (2 GiB and more: the stream is far too short)
+	for i := 0; i < 8 && i < len(frames); i++ {
+		bf := frames[i]
+		if bf.legacy || len(bf.frame) > 400000 {
+			continue
+		}
+		k := r.Intn(20)
+		b := append(le32b(0x184D2A50+uint32(r.Intn(16))), le32b(0x80000000|uint32(k))...)
+		b = append(b, r.Bytes(k)...)
+		b = append(b, bf.frame...)
+		fmt.Fprintf(w, "R %d %s 0 -1 0 %s X:unexpEOF\n", r.Pick([]int{1, 4}), saveBlob("skiptop", b), []string{"wt:-1", "r:100000 r:100000 r:9"}[r.Intn(2)])
+	}
 	for fi, bf := range frames {
 		if len(bf.frame) > 400000 {
 			continue
